@@ -17,7 +17,8 @@ ID = "C14"
 RULE = (
     "Hypothesis-generated disparity maps (1-9 x 1-9, window offset 0/1) after cross-checking: every pixel is valid "
     "(information bits 2/3 possible), invalid (bits 0/1/6/7), occluded (bit 8) or mismatched (bit 9) with generated "
-    "weights, including rows, columns and whole maps without any valid pixel; valid disparities from intervals that "
+    "weights, including rows, columns and whole maps without any valid pixel and whole rows / columns / diagonals of "
+    "flagged pixels; valid disparities from intervals that "
     "do or do not contain 0; both methods. Non-trivial = at least one pixel that must be filled (a valid pixel is "
     "visible along a principal direction) and at least one flagged pixel with no valid pixel in any principal "
     "direction; distinct = distinct canonical payload."
@@ -25,8 +26,12 @@ RULE = (
 ASSUMPTIONS = [
     "a pixel carries at most one of bit 8 / bit 9 and never together with an invalid bit 0/1/6/7 (what cross-checking delivers)",
     "MUST-fill is asserted only when a valid pixel is visible along one of the 8 principal directions (same row for the "
-    "mc-cnn occlusion rule); MUST-stay-flagged only when the map has no valid pixel at all; in between only the "
-    "flag-exchange, finiteness and range clauses are judged",
+    "mc-cnn occlusion rule); MUST-stay-flagged when no valid pixel (or pixel filled by the pass that runs first) lies on "
+    "any cell that any discretisation (truncate / floor / ceil of half steps) of the documented directions can visit; a "
+    "filled value lies between the smallest and largest source in that sight set",
+    "metamorphic: re-labelling the other flagged pixels of a pixel's kind as plainly invalid leaves it unchanged (mc-cnn both "
+    "kinds, sgm mismatches not touching an occlusion); mc-cnn filling commutes with turning the map upside down. sgm is "
+    "excluded from the flip relation (its second-lowest-|d| rule breaks ties by direction order)",
 ]
 
 INV = 0b01111000011
@@ -46,7 +51,16 @@ def cases(draw):
     for r in range(H):
         kinds.append([draw(st.sampled_from(pool)) for _ in range(W)])
         vals.append([draw(st.integers(lo * quant, hi * quant)) / quant for _ in range(W)])
-    return {"H": H, "W": W, "off": off, "kinds": kinds, "vals": vals, "lo": lo, "hi": hi,
+    # whole rows / columns / the main diagonal of flagged pixels: scan paths that reach the opposite edge without a find
+    for _ in range(draw(st.sampled_from([0, 0, 1, 2]))):
+        k = draw(st.sampled_from(["m", "m", "o", "i"]))
+        how = draw(st.sampled_from(["row", "col", "diag"]))
+        idx = draw(st.integers(0, max(H, W) - 1))
+        for r in range(H):
+            for c in range(W):
+                if (how == "row" and r == idx % H) or (how == "col" and c == idx % W) or (how == "diag" and r == c):
+                    kinds[r][c] = k
+    return {"H": H, "W": W, "off": off, "kinds": kinds, "vals": vals, "lo": lo, "hi": hi, "probe": draw(st.integers(0, 80)),
             "method": draw(st.sampled_from(["mc-cnn", "sgm"])),
             "invalid_value": draw(st.sampled_from(["NaN", -9999])),
             "info": draw(st.sampled_from([0, 4, 8, 12]))}
@@ -91,6 +105,26 @@ def visible_valid(valid: np.ndarray, r: int, c: int, dirs) -> bool:
             rr += dr
             cc += dc
     return False
+
+
+# mc-cnn mismatch: the 16 documented directions (row step, column step); half steps are discretised by the implementation
+RAYS16 = [(0.0, 1.0), (-0.5, 1.0), (-1.0, 1.0), (-1.0, 0.5), (-1.0, 0.0), (-1.0, -0.5), (-1.0, -1.0), (-0.5, -1.0),
+          (0.0, -1.0), (0.5, -1.0), (1.0, -1.0), (1.0, -0.5), (1.0, 0.0), (1.0, 0.5), (1.0, 1.0), (0.5, 1.0)]
+
+
+def ray_cells(r, c, H, W, rays, loose):
+    """cells a scan from (r, c) can visit; `loose`: every discretisation of a half step (truncate / floor / ceil) is
+    admitted, so the set is a superset of what any implementation of the documented directions looks at"""
+    cells = set()
+    fs = (math.trunc, math.floor, math.ceil) if loose else (math.trunc,)
+    for dy, dx in rays:
+        for i in range(1, max(H, W) + 1):
+            for f in fs:
+                for g in fs:
+                    rr, cc = r + f(dy * i), c + g(dx * i)
+                    if 0 <= rr < H and 0 <= cc < W:
+                        cells.add((rr, cc))
+    return cells
 
 
 def judge(ctx: Ctx, method, d, m, gd, gm, off):
@@ -173,6 +207,28 @@ def judge(ctx: Ctx, method, d, m, gd, gm, off):
                 sig = "C14/filled-outside-valid-range"
                 ctx.violation(sig, f"{method} pixel {(r, c)} mask {b}->{a} disp {g} valid range [{vmin},{vmax}]")
                 continue
+            # the sources are the valid pixels in sight along the documented directions (for the pass that runs second,
+            # also the pixels the first pass has just filled): the value lies between the smallest and largest of them
+            gmi = gm.astype(int)
+            if method == "mc-cnn":
+                first_pass = was == 256
+                cells = {(r, cc) for cc in range(W) if cc != c} if first_pass else ray_cells(r, c, H, W, RAYS16, True)
+                filled_before = (mi & 256 != 0) & (gmi & 256 == 0) & (gmi & 16 != 0)
+            else:
+                first_pass = was == 512 and not sgm_exc
+                cells = ray_cells(r, c, H, W, DIRS8, False)
+                filled_before = (mi & 512 != 0) & (gmi & (256 | 512) == 0) & (gmi & 32 != 0)
+            vals = [float(d[x]) for x in cells if valid[x]]
+            if not first_pass:
+                vals += [float(gd[x]) for x in cells if filled_before[x]]
+            if not vals:
+                ctx.violation("C14/filled-without-valid-pixel-in-sight", f"{method} pixel {(r, c)} mask {b}->{a} disp {g}: no "
+                                                                         f"valid pixel lies along its scan directions")
+                continue
+            if not (min(vals) <= g <= max(vals)):
+                ctx.violation("C14/filled-outside-range-in-sight", f"{method} pixel {(r, c)} mask {b}->{a} disp {g}: valid "
+                                                                   f"pixels in sight span [{min(vals)},{max(vals)}]")
+                continue
             if method == "mc-cnn" and was == 256 and see_row:
                 exp = None
                 for cc in range(c - 1, -1, -1):
@@ -203,6 +259,47 @@ def body(ctx: Ctx, p: dict) -> None:
     n_must, n_unfillable, n_filled, valid = judge(ctx, method, d, m, gd, gm, off)
     any_valid = bool(valid.any())
     classes = [method]
+    # ---- a flagged pixel is filled from VALID pixels only: re-labelling the other flagged pixels of its kind as plainly
+    # invalid (bit 6) must not change it.  Sound for the kinds whose pass reads the input map only or whose earlier pass
+    # treats both labels alike: mc-cnn occlusion, mc-cnn mismatch, sgm mismatch not touching an occlusion (sgm's occlusion pass
+    # runs after the mismatch pass and sees its fills).
+    mi = m.astype(int)
+    inner = np.zeros((H, W), bool)
+    inner[off:H - off, off:W - off] = True
+    probes = [(r, c, bit) for bit in ((256, 512) if method == "mc-cnn" else (512,))
+              for r, c in np.argwhere(((mi & bit) != 0) & inner)
+              # an sgm mismatch touching an occlusion is handed to the occlusion pass, which runs after the other mismatches
+              # have been filled: it legitimately depends on them
+              if not (method == "sgm" and (mi[max(0, r - 1):r + 2, max(0, c - 1):c + 2] & 256).any())]
+    if probes and "probe" in p:
+        r, c, bit = probes[p["probe"] % len(probes)]
+        others = ((mi & bit) != 0) & inner
+        others[r, c] = False
+        if others.any():
+            m2 = mi.copy()
+            m2[others] = (m2[others] & ~bit) | 64
+            ds2 = build.disparity_dataset(d, m2.astype(np.uint16), int(math.floor(p["lo"])), int(math.ceil(p["hi"])), off)
+            validation.AbstractInterpolation(validation_method="cross_checking_accurate",
+                                             interpolated_disparity=method).interpolated_disparity(ds2)
+            g2, gm2 = ds2["disparity_map"].data[r, c], int(ds2["validity_mask"].data[r, c])
+            same = (g2 == gd[r, c]) or (np.isnan(g2) and np.isnan(gd[r, c]))
+            if gm2 != int(gm[r, c]) or not same:
+                ctx.violation("C14/fill-depends-on-other-flagged-pixels",
+                              f"{method} pixel {(int(r), int(c))} (bit {bit}): {float(gd[r, c])}/{int(gm[r, c])} in the full map, "
+                              f"{float(g2)}/{gm2} when the other flagged pixels of its kind are plainly invalid")
+            classes.append("probe")
+    if method == "mc-cnn":
+        # the documented directions are symmetric top/bottom and the occlusion rule works along rows: filling the map turned
+        # upside down gives the upside-down result (whatever order the pixels are visited in)
+        ds3 = build.disparity_dataset(d[::-1].copy(), m[::-1].copy(), int(math.floor(p["lo"])), int(math.ceil(p["hi"])), off)
+        validation.AbstractInterpolation(validation_method="cross_checking_accurate",
+                                         interpolated_disparity=method).interpolated_disparity(ds3)
+        fd, fm = ds3["disparity_map"].data[::-1], ds3["validity_mask"].data[::-1].astype(int)
+        diff = (fm != gm) | ~((fd == gd) | (np.isnan(fd) & np.isnan(gd)))
+        if diff.any():
+            r, c = np.argwhere(diff)[0]
+            ctx.violation("C14/fill-depends-on-visiting-order", f"mc-cnn pixel {(int(r), int(c))}: {float(gd[r, c])}/{int(gm[r, c])}, "
+                                                                f"{float(fd[r, c])}/{int(fm[r, c])} when the map is processed upside down")
     if not any_valid:
         classes.append("no-valid-pixel-at-all")
     if any(not valid[r].any() for r in range(H)):
